@@ -84,6 +84,40 @@ def gen_prop_program(seed, k, mode="interp", **opts):
     return prog
 
 
+def gen_creep_program(seed, k):
+    """a feedback loop through connectives that gains one small dyadic step per sweep: infer() needs about 1/step sweeps --
+    many more than there are formulae or bounds in the model -- and ends exactly at a classical fixpoint. Data mode 'given'."""
+    rng = random.Random(sub_seed(seed, "creep", k))
+    step = rng.choice([Fr(1, 16), Fr(1, 16), Fr(1, 32)])
+    act = lambda: rng.choice(["lukt", "lukt", "luk"])
+    at = lambda i: {"id": i, "kind": "atom"}
+    variant = k % 3
+    if variant == 0:
+        # A -> B, (B or K) -> A, K = step: L(A), L(B) rise by `step` per sweep up to TRUE
+        nodes = [at(0), at(1), at(2),
+                 {"id": 3, "kind": "implies", "ops": [0, 1], "act": act()},
+                 {"id": 4, "kind": "or", "ops": [1, 2], "act": act()},
+                 {"id": 5, "kind": "implies", "ops": [4, 0], "act": act()}]
+        roots, data = [3, 5], [(2, step, step), (3, ONE, ONE), (5, ONE, ONE)]
+    elif variant == 1:
+        # C = Or(A, B) with weights (1, 1/2), L(B) = 2*step; C -> A, A -> D, D -> E: a chain behind the loop
+        nodes = [at(0), at(1), at(2), at(3),
+                 {"id": 4, "kind": "or", "ops": [0, 1], "w": [ONE, Fr(1, 2)], "act": act()},
+                 {"id": 5, "kind": "implies", "ops": [4, 0], "act": act()},
+                 {"id": 6, "kind": "implies", "ops": [0, 2], "act": act()},
+                 {"id": 7, "kind": "implies", "ops": [2, 3], "act": act()}]
+        roots, data = [5, 6, 7], [(1, 2 * step, ONE), (5, ONE, ONE), (6, ONE, ONE), (7, ONE, ONE)]
+    else:
+        # the mirror image on upper bounds: B -> A, A -> (B and K), K = 1 - step: U(A), U(B) fall by `step` per sweep to FALSE
+        nodes = [at(0), at(1), at(2),
+                 {"id": 3, "kind": "implies", "ops": [1, 0], "act": act()},
+                 {"id": 4, "kind": "and", "ops": [1, 2], "act": act()},
+                 {"id": 5, "kind": "implies", "ops": [0, 4], "act": act()}]
+        roots, data = [3, 5], [(2, 1 - step, 1 - step), (3, ONE, ONE), (5, ONE, ONE)]
+    rng.shuffle(roots)
+    return {"kb": {"nodes": nodes, "roots": roots}, "data": data, "ops": [("infer", 200)]}
+
+
 def parse_dump(line):
     """'d l,u l,u ...' -> [(l,u)...]"""
     return [tuple(parse_q(x) for x in tok.split(",")) for tok in line.split()[1:]]
